@@ -338,6 +338,9 @@ func init() {
 		switch o := strArg(a[0], "nd.Option"); o {
 		case "permute-maps":
 			e.permuteMaps = true
+		case "permute-maps-single":
+			e.permuteMaps = true
+			e.permuteSingle = true
 		case "overflow":
 			e.overflowOn = true
 		default:
